@@ -104,13 +104,16 @@ def _val(v):
 
 def _data(e):
     d = e.data
-    other = {k: d[k] for k in d if k not in MODELLED_KEYS}
+    other = {k: d[k] for k in d if k not in MODELLED_KEYS and not k.startswith("EDIF.")}
+    emeta = {k: d[k] for k in d if k not in MODELLED_KEYS and k.startswith("EDIF.")}
     rec = {"name": _val(d[".NAME"]) if ".NAME" in d else "",
            "eid": _val(d["EDIF.identifier"]) if "EDIF.identifier" in d else "",
            "ns": _val(d[".NS"]) if ".NS" in d else "",
            "k": _val(d["k"]) if "k" in d else "", "props": _props(d["EDIF.properties"]) if "EDIF.properties" in d else "", "vattr": _vattr(d), "eb": _eb(d)}
     if other:
         rec["other"] = json.dumps(other, sort_keys=True, default=repr)
+    if emeta:
+        rec["emeta"] = json.dumps(emeta, sort_keys=True, default=repr)
     return rec
 
 
@@ -851,6 +854,65 @@ def _x_eblif_rt(reg, c):
     return [("N", new)] if new is not None else []
 
 
+def _mask_timestamp(text):
+    import re
+    text = re.sub(r"\(timeStamp[^)]*\)", "(timeStamp)", text)
+    return "\n".join(l for l in text.split("\n") if "Generated" not in l or not l.lstrip().startswith(("//", "#")))
+
+
+def _x_compose2(reg, c):
+    """compose netlist n twice in the given format with the given options (queries in between) and observe
+    the two texts, completeness and closedness of the output file"""
+    import hashlib
+    n = reg.get("N", c["n"])
+    ext = {"edif": ".edf", "verilog": ".v", "eblif": ".eblif"}[c["fmt"]]
+    kw = {k: v for k, v in (c.get("opts") or {}).items() if k in ("write_blackbox", "write_eblif_cname", "defparam")}
+    if (c.get("opts") or {}).get("definition_list"):
+        top = n.top_instance.reference if n.top_instance is not None else None
+        kw["definition_list"] = [top.name] if top is not None else []
+    p1, p2 = _tmpfile(ext), _tmpfile(ext)
+    extra = {}
+    try:
+        sdn.compose(n, p1, **kw)
+        with open(p1) as f:
+            t1 = f.read()
+        extra["closed"] = not any(os.path.realpath(os.path.join("/proc/self/fd", fd)) == os.path.realpath(p1)
+                                  for fd in os.listdir("/proc/self/fd")
+                                  if os.path.exists(os.path.join("/proc/self/fd", fd)))
+        # read-only queries between the two writes
+        list(sdn.get_instances(n)), list(sdn.get_definitions(n)), list(sdn.get_hwires(n, recursive=True))
+        sdn.compose(n, p2, **kw)
+        with open(p2) as f:
+            t2 = f.read()
+        extra["hash1"] = hashlib.sha256(_mask_timestamp(t1).encode()).hexdigest()[:16]
+        extra["hash2"] = hashlib.sha256(_mask_timestamp(t2).encode()).hexdigest()[:16]
+        complete = True
+        try:
+            if c["fmt"] == "edif":
+                import edif_text
+                edif_text.read_canon(t1)
+            elif kw.get("definition_list") or kw.get("write_blackbox") is False:
+                complete = t1.rstrip().endswith(("endmodule", ".end")) or t1.strip() == ""
+            else:
+                sdn.parse(p1)
+        except CallTimeout:
+            raise
+        except Exception as e:
+            complete = False
+            extra["incomplete_because"] = "%s: %s" % (type(e).__name__, str(e)[:150])
+        extra["complete"] = complete
+        if _val(sdn.namespace_manager.default) != "DEFAULT":
+            sdn.namespace_manager.default = "DEFAULT"
+    finally:
+        for p in (p1, p2):
+            if os.path.exists(p):
+                os.unlink(p)
+    reg.last_ret = []
+    reg.last_info = []
+    reg.last_extra = extra
+    return []
+
+
 def _x_compare(reg, c):
     from spydrnet.compare.compare_netlists import Comparer
     import io
@@ -876,7 +938,7 @@ def _x_clone(reg, c):
     return [(c["kind"], new)]
 
 
-QUERY_OPS = {"eblif_read": _x_eblif_read, "eblif_rt": _x_eblif_rt, "vlog_read": _x_vlog_read, "vlog_rt": _x_vlog_rt, "edif_read": _x_edif_read, "edif_rt": _x_edif_rt, "compare": _x_compare, "q": _q_query, "clone": _x_clone, "hq": _q_hq, "hcheck": _q_hcheck, "uniquify": _x_uniquify, "flatten": _x_flatten}
+QUERY_OPS = {"compose2": _x_compose2, "eblif_read": _x_eblif_read, "eblif_rt": _x_eblif_rt, "vlog_read": _x_vlog_read, "vlog_rt": _x_vlog_rt, "edif_read": _x_edif_read, "edif_rt": _x_edif_rt, "compare": _x_compare, "q": _q_query, "clone": _x_clone, "hq": _q_hq, "hcheck": _q_hcheck, "uniquify": _x_uniquify, "flatten": _x_flatten}
 
 
 class CallTimeout(Exception):
